@@ -252,3 +252,18 @@ package keeper
 //@   loop 0 invariant bankA2MN == old(bankA2MN) && bankBurnN == old(bankBurnN)
 //@   loop 0 invariant unstakingApplicationsIterator != nil && 0 <= itPos[unstakingApplicationsIterator] && itPos[unstakingApplicationsIterator] <= itN[unstakingApplicationsIterator]
 //@   loop 1 invariant bankA2MN == old(bankA2MN) && bankBurnN == old(bankBurnN)
+
+// ---- C14: the application-transfer exception of the signer rule --------------------------------
+// A message counts as an application transfer signed by msgSigner only if it is a stake message
+// of the TRANSFER form (a key, zero value, no chains), the signer is not the key's own address
+// and the signer has an application record - after both upgrades.
+//@ func (Keeper).IsMsgAppTransfer
+//@   props C14,C28
+//@   modifies bigv
+//@   ensures [bigv-kept] forall p int {bigv[p]} :: isold(p) ==> bigv[p] == old(bigv[p])
+//@   ensures [transfer-form-only] result ==> isdyn(msg, *x/apps/types.MsgStake) && dyn(msg, *x/apps/types.MsgStake) != nil
+//@   ensures [transfer-form-key] result ==> dyn(msg, *x/apps/types.MsgStake).PubKey != nil
+//@   ensures [transfer-form-zero-value] result ==> dyn(msg, *x/apps/types.MsgStake).Value.i == nil || old(bigv[dyn(msg, *x/apps/types.MsgStake).Value.i]) == 0
+//@   ensures [transfer-form-no-chains] result ==> len(dyn(msg, *x/apps/types.MsgStake).Chains) == 0
+//@   ensures [signer-has-an-application] result ==> old(appHas[bytes(msgSigner)])
+//@   ensures [upgrades] result ==> ctxAfterUpgrade(ctx) && ((global(codec.UpgradeFeatureMap)["AppTransfer"] != 0 && ctxHeight(ctx) >= global(codec.UpgradeFeatureMap)["AppTransfer"]) || global(codec.TestMode) <= 0 - 3)
